@@ -25,7 +25,7 @@ CHECKS = {
          "Component: every operation sequence up to depth 5 (7) over add/remove/conflicting/request/tick on 5 (7) txs with forced outpoint collisions, compared with a reference index. Node: all histories up to depth 4 (6) of arrival orders/sources/evictions; each relevant member of a conflicting pair reported unsafe, never safe afterwards, no spurious unsafe.",
          NOTE_NODE, "DESIGN.md §4 C05"),
  "C06": (MC, HIST + "; cancel/unsafe update oracle",
-         "All histories up to depth 4 (6) of unconfirmed relevant/irrelevant txs and confirming blocks with double spends (winner relevant or not, seen before or not, one or two losers); cancelled+unsafe update for each delivered loser, block on the node's chain. Two open known findings (winner seen before its block).",
+         "All histories up to depth 4 (6) of unconfirmed relevant/irrelevant txs and confirming blocks with double spends (winner relevant or not, seen before or not, one or two losers); cancelled+unsafe update for each delivered loser, block on the node's chain.",
          NOTE_NODE, "DESIGN.md §4 C06"),
  "C07": (MC, HIST + " with virtual clock; state-trajectory oracle + liveness phase from every state",
          "All histories up to depth 4 (6) mixing untrusted/trusted announcements, conflicts, clock steps around the 2000 ms safe delay, confirmation, local submission, restart; invariants on every per-txid state sequence and safe-within-bound when warranted.",
